@@ -309,6 +309,8 @@ def run_variant(case: dict, relabel: bool) -> dict:
     lab = Lab("num")
     m = Relab(S.eq) if relabel else ident
     c = Ctx(lab, case, m)
+    for spec in case["srcs"]:          # hot sources start at time 0, not when the pipeline is built
+        c.s(spec["name"])
     if S.setup is not None:
         S.setup(c)
     else:
